@@ -2,7 +2,7 @@
    Statements only.  `lex_items` is the model of GoldLexer::lex that also keeps the skipped
    whitespace and the chunk of text each item consumed; `lex` (what the code returns) is its
    projection to tokens and errors. *)
-From GoldV Require Import Base Tokens Keywords Lexer LexerProofs.
+From GoldV Require Import Base Tokens Keywords Lexer LexerProofs Unlex UnlexProofs.
 
 (* what the implementation returns is the projection of the item list *)
 Theorem C05_lex_is_projection :
@@ -92,6 +92,40 @@ Example C05_nonvacuous :
   = [(36, 2, 0)].
 Proof. vm_compute. split; reflexivity. Qed.
 
+(* ---------- the lexer is a left inverse of the printer (Model/Unlex.v) ----------
+   For EVERY list of printable lexemes -- words classified as the lexer classifies them (keywords in any
+   letter case, identifiers), numbers, every one- and two-character operator, `#`, string literals with ANY
+   content (quotes and line breaks included; written single-quoted with doubled quotes) and comments --
+   lexing the printed text gives exactly these lexemes back, in order, each at the offset where the printer
+   put it, and reports no lexical error.  This is what makes the token-level theorems of C06 / C09 / C12
+   statements about texts. *)
+Theorem C05_lex_unlex : forall ts, forallb printable ts = true ->
+  map lx_obs (fst (lex (unlex ts))) = ts /\ snd (lex (unlex ts)) = [] /\
+  map traw (fst (lex (unlex ts))) = lx_offsets 0 ts.
+Proof. exact lex_unlex. Qed.
+
+(* one printed lexeme is lexed the same way in any context: any offset, any line state, any text after its
+   separator *)
+Theorem C05_lexeme_context_free : forall t off st rest, printable t = true ->
+  exists st', step_of off st (spell t ++ lx_sep t :: rest) =
+              Some (ITok (create_token st off (fst t) (snd t)) (spell t), st', lx_sep t :: rest).
+Proof. exact lex_step_lexeme. Qed.
+
+(*  class aX 'it''s<LF>x' ; note<LF> x := y1 << 2 <= 3.5 # foo ( )  *)
+Example C05_unlex_nonvacuous :
+  let ts := [(TClass, [67;108;65;115;115]); (TIdentifier, [97;88]); (TStringLiteral, [105;116;39;115;10;120]);
+             (TComment, [32;110;111;116;101]); (TIdentifier, [120]); (TDeepAssign, [58;61]);
+             (TIdentifier, [121;49]); (TLeftShift, [60;60]); (TNumericLiteral, [50]); (TLessThanOrEqual, [60;61]);
+             (TNumericLiteral, [51;46;53]); (TPound, [35]); (TIdentifier, [102;111;111]); (TOBracket, [40]); (TCBracket, [41]);
+             (TMinus, [45]); (TColon, [58])] in
+  forallb printable ts = true /\
+  unlex ts = [67;108;65;115;115;32; 97;88;32; 39;105;116;39;39;115;10;120;39;32; 59;32;110;111;116;101;10;
+              120;32; 58;61;32; 121;49;32; 60;60;32; 50;32; 60;61;32; 51;46;53;32; 35;32; 102;111;111;32; 40;32; 41;32; 45;32; 58;32] /\
+  printable (TIdentifier, [99;108;97;115;115]) = false /\      (* `class` is not an identifier *)
+  printable (TPlus, [43;43]) = false /\                         (* `++` is not a plus *)
+  printable (TComment, [97;10;98]) = false.                     (* a comment ends at the line end *)
+Proof. vm_compute. repeat split; reflexivity. Qed.
+
 Print Assumptions C05_lex_is_projection.
 Print Assumptions C05_partition.
 Print Assumptions C05_token.
@@ -104,3 +138,6 @@ Print Assumptions C05_identifier_never_keyword.
 Print Assumptions C05_keyword_only_for_spelling.
 Print Assumptions C05_kw_table_ok.
 Print Assumptions C05_nonvacuous.
+Print Assumptions C05_lex_unlex.
+Print Assumptions C05_lexeme_context_free.
+Print Assumptions C05_unlex_nonvacuous.
